@@ -27,7 +27,7 @@ BASE = dict(
     Subs=S("1"), RGs=S("1"), Consumers=S("a"), AcctChoices=S((5, 1), (7, 2), (0, 3)),
     Reqs=S(2, 4), Vols=S(0, 1, 3), Modes=S("on"), TrigSets=S("none", "final", "partial"),
     TopUps=S(6), MaxSteps=5, MaxSess=1, Limit=100, Pads=S(0), CreateConts=S(0),
-    TwoEntries=False, BadRefs=False, WellBehaved=False, Lrsn0=0, Recharges=True,
+    TwoEntries=False, BadRefs=False, WellBehaved=False, Lrsn0=0, Recharges=True, Traffic=S(),
 )
 
 # clause -> invariant of ChfSeqMC that states it on the model
@@ -53,7 +53,22 @@ CLAUSES = {
             ("C12", "recharge_unknown_notifies")},
 }
 
-PADMAP = {0: 0}
+def realpad(limit, pad):
+    """Real serviceSpecificationInfo size that leaves about as many container slots as the model's pad."""
+    return 0 if pad == 0 else 65430 - 45 * (limit - 1 - pad)
+
+
+def tz_scenarios():
+    """C02: one create/update/release per host time-zone offset (positive, negative, non-hour-aligned)."""
+    out = []
+    for i, tz in enumerate([0, 3600, 19800, 20700, 50400, -1800, -12600, -43200, 45900, -34200]):
+        out.append(dict(id="C02-tz%d" % i, lrsn0=3, wb=False, ues=["1"],
+                        accts=[dict(u="1", rg="1", quota=50, cost="1")],
+                        steps=[dict(a="create", u="1", s="s1", c="a", chid=5, tz=tz,
+                                    usage=[dict(rg="1", req=-1, conts=[dict(m="off", vol=2)])]),
+                               dict(a="update", u="1", s="s1", usage=[dict(rg="1", req=4, conts=[dict(m="on", vol=0)])]),
+                               dict(a="release", u="1", s="s1", usage=[], trig=[])]))
+    return out
 
 
 def cfg(pid, tier):
@@ -77,6 +92,36 @@ def cfg(pid, tier):
         else:
             c.update(MaxSteps=6)
             n_beh, emit = 6000, 60
+    elif pid == "C12":
+        c.update(Subs=S("1", "2"), BadRefs=True, MaxSess=2, Reqs=S(4), Vols=S(0, 3), TrigSets=S("none", "final"),
+                 TopUps=S(), AcctChoices=S((9, 1)))
+        if tier == "quick":
+            c.update(MaxSteps=4)
+            n_beh, emit = 220, 60
+        else:
+            c.update(MaxSteps=5)
+            n_beh, emit = 5000, 200
+    elif pid in ("C02", "C03"):
+        c.update(Subs=S("1", "2"), MaxSess=3, CreateConts=S(0, 2), Modes=S("on", "off"), Limit=6, Pads=S(0, 3),
+                 Reqs=S(4), Vols=S(0, 2), TrigSets=S("none", "partial", "final"), TopUps=S(), Recharges=False,
+                 AcctChoices=S((40, 1)), TwoEntries=(tier == "thorough"))
+        if tier == "quick":
+            c.update(MaxSteps=4)
+            n_beh, emit = 220, 100
+        else:
+            c.update(MaxSteps=5)
+            n_beh, emit = 5000, 400
+        if pid == "C02":
+            extra = tz_scenarios()
+    elif pid == "C10":
+        c.update(Subs=S("1", "11"), Consumers=S("", "1"), Traffic=S(9), Lrsn0=1, MaxSess=3, Modes=S("off"),
+                 Reqs=S(), Vols=S(1), TrigSets=S("none"), TopUps=S(), Recharges=False, AcctChoices=S((9, 1)))
+        if tier == "quick":
+            c.update(MaxSteps=4)
+            n_beh, emit = 220, 10
+        else:
+            c.update(MaxSteps=6, MaxSess=4)
+            n_beh, emit = 5000, 100
     return c, n_beh, emit, extra
 
 
@@ -103,7 +148,11 @@ def to_behaviour(hist, bid, padmap):
     for st in hist[1:]:
         st = dict(st)
         if "pad" in st:
-            st["pad"] = padmap.get(st["pad"], st["pad"])
+            st["pad"] = padmap(st["pad"])
+        if st["a"] == "traffic":
+            for _ in range(st["n"]):
+                b["steps"].append(dict(a="create", u="9", s="t", c="t", onetime=True, usage=[], chid=0, pad=0))
+            continue
         b["steps"].append(st)
     return b
 
@@ -182,6 +231,10 @@ def check(pid, tier, replay=None):
     sc = core.Scratch(pid)
     rnd = random.Random(core.seed())
     consts, n_beh, emit, extra = cfg(pid, tier)
+    limit = consts["Limit"]
+
+    def padmap(p):
+        return realpad(limit, p)
 
     build = {}
 
@@ -202,13 +255,22 @@ def check(pid, tier, replay=None):
         ct = core.cfg_text("Spec", plain, over, invariants=INV[pid], view="View", action_constraints=["EmitBehaviour"])
         mc = core.tlc(sc, "MCrun", ct, extra_modules={"MCrun.tla": mod}, workers=min(8, core.NCPU), seed_=core.seed(),
                       timeout=7200 if tier == "thorough" else 900)
+        cex = []
         if mc["violated"]:
-            # a counterexample on the model alone is not a verdict (DESIGN 0.4): report as machinery state
-            raise core.MachineryError("model invariant %s fails on the specification; the as-is model and the "
-                                      "property disagree (see %s)" % (mc["violated"], mc["outfile"]))
+            # A counterexample on the model alone is not a verdict (DESIGN 0.4): it is replayed into the
+            # real code together with the generated behaviours; only what the code does is judged.
+            cex = list(core.tagged_lines(mc["outfile"], "VF-CEX"))[:3]
+            v.notes.append("the specification (as-is model) admits a violation of %s; counterexample replayed "
+                           "into the implementation" % mc["violated"])
+            mc_inv = mc
+            ct = core.cfg_text("Spec", plain, over, invariants=[], view="View", action_constraints=["EmitBehaviour"])
+            mc = core.tlc(sc, "MCrun", ct, extra_modules={"MCrun.tla": mod}, workers=min(8, core.NCPU),
+                          seed_=core.seed(), timeout=7200 if tier == "thorough" else 900)
+            mc["violated"] = mc_inv["violated"]
         hists = list(core.tagged_lines(mc["outfile"], "VF-BEH"))
         hists = select(hists, n_beh, rnd)
-        behs = [to_behaviour(h, "%s-%d" % (pid, i), PADMAP) for i, h in enumerate(hists)]
+        behs = [to_behaviour(h, "%s-cex%d" % (pid, i), padmap) for i, h in enumerate(cex)]
+        behs += [to_behaviour(h, "%s-%d" % (pid, i), padmap) for i, h in enumerate(hists)]
         behs += extra
     else:
         with open(replay) as f:
@@ -231,7 +293,7 @@ def check(pid, tier, replay=None):
     cov = dict(
         states=max(mc["distinct"], 1), transitions=max(mc["generated"], 1),
         traces_validated_against_impl=len(behs), impl_steps_judged=steps,
-        divergences=ndiv, model_invariants=INV[pid], clauses=sorted("%s.%s" % c for c in CLAUSES[pid]),
+        divergences=ndiv, model_invariants=INV[pid], model_invariant_violated=mc.get("violated"), clauses=sorted("%s.%s" % c for c in CLAUSES[pid]),
         exhaustive=False,
         explanation="TLC explored the bounded ChfSeqMC model exhaustively (constants in 'constants'); a seeded sample of "
                     "the explored transitions (behaviour = shortest path to the source state + the transition) was "
